@@ -1001,8 +1001,8 @@ def rule_config(ctx, px, root):
     # filter_id of each language routes through strop
     for lang in ("c", "cpp", "py"):
         m = px.module(f"nunavut.lang.{lang}")
-        f = m.classes["Language"].methods.get("filter_id")
-        if f is None:
+        f = m.classes["Language"].methods.get("filter_id") or m.classes["Language"].mro_lookup("filter_id")
+        if f is None or not any(isinstance(c_, ast.Call) for c_ in ast.walk(f.node)):
             raise AnalysisError(f"anchor missing: Language.filter_id of {lang}")
         rets = [ast.unparse(r.value) for r in ast.walk(f.node) if isinstance(r, ast.Return)]
         ok = bool(rets) and all(".strop(" in r for r in rets)
